@@ -19,6 +19,7 @@ func runC09(r *Report) {
 	ruleReadCheckOptionHonoured(r)
 	ruleStoredPayloadCovered(r)
 	ruleErrorIsLooksAtTarget(r)
+	ruleQueueFailureIsFinal(r, "queue-failure-is-final")
 	p := r.P
 	o := &order{r, p}
 	const rv = "validate-always"
